@@ -19,6 +19,8 @@ SOURCES = {
     "A1": ("table", "t1", "A1", ""),      # the same table under an alias
     "Q6": ("subq", "q6", "q6", ""),       # an aliased subquery
     "C7": ("cte", "c7", "c7", ""),        # a CTE reference (AliasedQuery)
+    "D1": ("table", "t4", "", "d1.s4"),   # one table name and one innermost schema name under two parent databases
+    "D2": ("table", "t4", "", "d2.s4"),
 }
 
 
@@ -118,7 +120,7 @@ class Env:
         self.src = {}
         for k, (kind, name, alias, schema) in SOURCES.items():
             if kind == "table":
-                self.src[k] = P.Table(name, alias=alias or None, schema=schema or None)
+                self.src[k] = P.Table(name, alias=alias or None, schema=(tuple(schema.split(".")) if "." in schema else schema) or None)
         self.src["T1f"] = P.Table("t1").for_(P.SYSTEM_TIME.as_of("2020-01-01"))
         self.src["Q6"] = Q.from_(P.Table("t6")).select("a", "b", "c").as_("q6")
         self.src["C7"] = P.AliasedQuery("c7")
